@@ -583,6 +583,15 @@ type ContractSet struct {
 	Lemmas map[string]*Lemma
 	Order  []string
 	Files  []string
+	// trace ghosts: package-level `ghost var name T`, shared by all functions; a function
+	// changes one only through `at ... ghost` updates or callees that list it in modifies
+	Globals map[string]*GlobalGhost
+}
+
+type GlobalGhost struct {
+	Name string
+	T    TypeExpr
+	Pkg  string
 }
 
 var clauseKeywords = map[string]bool{
@@ -593,7 +602,7 @@ var clauseKeywords = map[string]bool{
 }
 
 func newContractSet() *ContractSet {
-	return &ContractSet{Funcs: map[string]*FuncContract{}, Specs: map[string]*SpecFunc{}, Lemmas: map[string]*Lemma{}}
+	return &ContractSet{Funcs: map[string]*FuncContract{}, Specs: map[string]*SpecFunc{}, Lemmas: map[string]*Lemma{}, Globals: map[string]*GlobalGhost{}}
 }
 
 // loadContractFile parses one contract file. pkgPath is the import path the
@@ -700,6 +709,28 @@ func (cs *ContractSet) loadContractFile(path, pkgPath string) error {
 			cs.Funcs[key] = cur
 			cs.Order = append(cs.Order, "func:"+key)
 		default:
+			if cur == nil && kw == "ghost" {
+				// package-level trace ghost: ghost var name T
+				r := strings.TrimSpace(strings.TrimPrefix(rest, "var"))
+				if eq := strings.Index(r, "="); eq >= 0 {
+					r = r[:eq]
+				}
+				f := strings.Fields(r)
+				if len(f) != 2 {
+					return fail(fmt.Errorf("ghost var: want `ghost var name T`"))
+				}
+				tp := &parser{}
+				tp.toks, _ = lex(f[1])
+				te, err := tp.typeExpr()
+				if err != nil {
+					return fail(err)
+				}
+				if _, dup := cs.Globals[f[0]]; dup {
+					return fail(fmt.Errorf("duplicate global ghost %s", f[0]))
+				}
+				cs.Globals[f[0]] = &GlobalGhost{f[0], te, pkgPath}
+				continue
+			}
 			if cur == nil {
 				return fail(fmt.Errorf("clause %q outside func", kw))
 			}
